@@ -61,6 +61,8 @@ func main() {
 			for _, n := range ns {
 				fmt.Println(n)
 			}
+		case "names":
+			code = cmdNames()
 		case "check":
 			code = cmdCheck(os.Args[2:])
 		case "replay":
